@@ -9,21 +9,22 @@ For one procedure:
     names on a collision and shows up as a mismatch);
  2. the driver prints it in both styles:
       raw  — compared character by character with what the real `_print_proc` returns
-             (`assert` lines and the `# @instr` comment, which the model does not have, are cut out
-             of the real text — they are whole lines);
+             (the `# @instr` comment lines, which are not syntax and which the model does not
+             have, are cut out of the real text — they are whole lines);
       fmt  — compared character by character with the real `str(proc)` (after yapf) whenever yapf
              did not wrap a line (same number of lines as the raw text); otherwise counted
              `fmt-wrapped` and only the raw comparison is made;
  3. the driver also reports whether the model's characters lex to the model's token lines
     (`lex_ok`), whether the procedure satisfies the hypothesis of the theorem (`wf`) and what the
-    model parser makes of the tokens (`rt`): `wf` ⇒ `rt == "ok"` is `parse_print_proc_partial` on
+    model parser makes of the tokens (`rt`): `wf` ⇒ `rt == "ok"` is `parse_print_proc` on
     this instance; a `bool`/`stride` argument (printed with ` @DRAM`) must give `wf = false`,
     `rt = "none"` — the recorded finding;
  4. the model PARSER is run on the REAL raw text (`parseproc`) and must return the normalised
     `PProc` (negative literals re-read as `-(…)`), resp. a parse error in the `bool @DRAM` case.
 
-Procedures that use forms the model does not have (extern calls, `stride(…)`, config reads,
-`free`, instruction bodies, non-finite float literals, `int` arguments) are skipped and counted.
+Procedures that use forms the model does not have (`free`, non-finite float literals, `int`
+arguments, window expressions other than as window statement / call argument) are skipped and
+counted.  Covered since the second wave: config reads, `stride(…)`, extern calls, `assert` lines.
 
     check_proc(exo_proc)      -> list[str]   mismatch descriptions (empty = tie holds / skipped)
     check_proc_full(exo_proc) -> dict        status, why, mismatches, flags
@@ -86,6 +87,19 @@ class _Conv:
             l = self.expr(e.lhs, env)
             r = self.expr(e.rhs, env)
             return {"b": e.op, "l": l, "r": r}
+        if isinstance(e, L.ReadConfig):
+            self.kinds["expr:config-read"] += 1
+            return {"cfg": e.config.name(), "fld": e.field}
+        if isinstance(e, L.StrideExpr):          # `stride(x, d)` = the call form with callee `stride`
+            if not isinstance(e.dim, int) or isinstance(e.dim, bool) or e.dim < 0:
+                raise _Skip("unsupported:stride-dimension:" + repr(e.dim))
+            self.kinds["expr:stride"] += 1
+            return {"call": "stride", "args": [{"v": env.get_name(e.name), "idx": []},
+                                               {"c": str(e.dim), "neg": False}]}
+        if isinstance(e, L.Extern):
+            self.kinds["expr:extern"] += 1
+            pname = e.f.name() or "_anon_"
+            return {"call": pname, "args": [self.expr(a, env) for a in e.args]}
         if isinstance(e, L.WindowExpr):
             raise _Skip("unsupported:window-expression-inside-expression")
         raise _Skip("unsupported:expr:" + type(e).__name__)
@@ -208,10 +222,10 @@ class _Conv:
     def proc(self, ir):
         env = self.PP.PrintEnv()
         args = [self.fnarg(a, env) for a in ir.args]
-        for p in ir.preds:                   # printed (and named) between the header and the body
-            self.PP._print_expr(p, env)
+        preds = [self.expr(p, env) for p in ir.preds]   # printed between the header and the body
+        self.kinds["assert"] += len(preds)
         body = self.block(ir.body, env)
-        return {"name": str(ir.name), "args": args, "body": body}
+        return {"name": str(ir.name), "args": args, "preds": preds, "body": body}
 
 
 def norm(j):
@@ -259,9 +273,8 @@ def _n_instr_lines(ir):
 
 
 def _cut(lines, ir):
-    """the header line and the body lines of a printed procedure (instr comment and assert lines,
-    which directly follow the header, removed)"""
-    k = _n_instr_lines(ir) + len(ir.preds)
+    """a printed procedure without the `# @instr` comment lines (they directly follow the header)"""
+    k = _n_instr_lines(ir)
     return [lines[0]] + lines[1 + k:]
 
 
@@ -329,7 +342,7 @@ def check_proc_full(exo_proc, driver=None):
     res["bool_mem"] = bool_mem
     if a_raw["wf"] and a_raw["rt"] != "ok":
         mm.append(f"{name}: wfProc holds but the model parser gives `{a_raw['rt']}` on the model's tokens "
-                  f"(contradicts parse_print_proc_partial)")
+                  f"(contradicts parse_print_proc)")
     # the model parser on the REAL text
     a_p = _ask(d, {"op": "parseproc", "text": "\n".join(real_raw_cut)})
     if bool_mem:
@@ -393,6 +406,23 @@ def c17s_forms(n: size, m: size, x: f32[n, m] @ DRAM, w0: [f32][n] @ DRAM, s: f3
     c17s_callee(m, x[n - 1, 0:m], s)
     C17SCfg.a = s
     C17SCfg.k = j + 1
+""",
+    "c17s_atoms": """
+@config
+class C17SCfg2:
+    a : f32
+    k : index
+
+@proc
+def c17s_atoms(n: size, x: [f32][n] @ DRAM, y: f32[n] @ DRAM, z: f32[n, n] @ DRAM):
+    assert n % 4 == 0
+    assert stride(x, 0) == 1
+    assert stride(z, 1) == 1 and n > 4
+    for i in seq(0, n):
+        y[i] = select(x[i], 0.0, relu(x[i]) * 2.0, -x[i]) + sin(y[i])
+        if i < C17SCfg2.k and i + 1 < n:
+            y[i] += -relu(select(y[i], x[i], C17SCfg2.a, sqrt(z[i, i + 1]))) * (C17SCfg2.a - -1.5)
+    C17SCfg2.a = 2.0
 """,
 }
 
